@@ -28,6 +28,8 @@ def _run_one(job):
     """Worker: validation + symbolic exploration of one configuration."""
     prop_id, idx, tier, seed = job
     from . import engine
+    if tier == 'thorough':
+        engine.CROSS['on'] = True
     mod = importlib.import_module(f'vf.props.{prop_id}')
     name, scen, cfg, opts = mod.configs(tier)[idx]
     t0 = time.time()
@@ -78,7 +80,13 @@ def run_property(prop_id, tier, seed, jobs=None, only=None):
     agg = dict(paths=0, obligations=0, discharged=0, trivial=0, solver_s=0.0, queries=0, validated=0, cut_paths=0)
     violations, known_hits, inconclusive, samples, valfail = [], [], [], [], []
     reach = {}
+    cross = {'agree': 0, 'cvc5_unknown': 0, 'skipped': 0, 'disagree': 0, 'time': 0.0}
     for r in results:
+        cx = r.get('cross') or {}
+        for k in ('agree', 'cvc5_unknown', 'skipped'):
+            cross[k] += cx.get(k, 0)
+        cross['disagree'] += len(cx.get('disagree', []))
+        cross['time'] += cx.get('time', 0.0)
         for k in ('paths', 'obligations', 'discharged', 'trivial', 'queries', 'validated', 'cut_paths'):
             agg[k] += r.get(k, 0)
         agg['solver_s'] += r.get('solver_s', 0.0)
@@ -137,6 +145,8 @@ def run_property(prop_id, tier, seed, jobs=None, only=None):
             'per_config': [{k: r.get(k) for k in ('config', 'paths', 'obligations', 'discharged', 'solver_s', 'wall_s', 'validated')} for r in results],
             'status': status,
             'solver': f'z3 {_z3v()}',
+            'cvc5_cross_check': ({'agreed': cross['agree'], 'cvc5_unknown_or_timeout': cross['cvc5_unknown'], 'not_parsed': cross['skipped'],
+                                  'disagreements': cross['disagree'], 'cvc5_time_s': round(cross['time'], 1)} if tier == 'thorough' else 'thorough tier only'),
             'repo': REPO,
         },
         'assumptions': list(getattr(mod, 'ASSUMPTIONS', [])) + COMMON_ASSUMPTIONS,
